@@ -21,12 +21,22 @@ follow one another.
  6./7. `known_last_reception_counts`, `known_reception_time_congr`, `known_setBucket_of_nil`.
  8. ITEMS 2 and 3 for announcements: `last_announcement_counts`, `known_reannounce`,
     `reannounce_idempotent`, `reannounce_extends`, `goodbye_then_announce`, `goodbye_removes`.
- 9. ITEM 2, changed data: `known_changed_data` (exactly what is reported: `mergedInstance`), and
+    The goodbye here is the RFC 6762 one (records with TTL 0). The library's OWN goodbye
+    (`remove_service_from_discovery` = `announce(true)`: cache-flush bit, TTL kept) is NOT this
+    packet; the listener keeps the instance one more second: `Props/C15Audit.lean`, section 3.
+ 9. ITEM 2, changed data: `known_changed_data` (what the MODEL reports: `mergedInstance`), and
     its four time windows `changed_data_union`, `changed_data_after_first_expired`,
     `changed_data_after_second_expired`, `changed_data_both_expired`; as sets:
-    `changed_data_union_sets` (section 13).
+    `changed_data_union_sets` (section 13). The model's bucket is an insertion-ordered list; Rust's
+    is a `HashMap` iterated in hasher order. Address and port SETS and attribute KEYS do not depend
+    on that order; the VALUE of an attribute key that the old and the new TXT record give
+    differently does ("new overwrites old" is the model's order; Rust reports either). The
+    order-independent statements are in `Props/C15Audit.lean`, section 1.
 10. ITEM 4: `ingest_dropForeign`, `known_dropForeign`, `ingest_remove_foreign`,
-    `ingest_announce_with_foreign`, `known_after_response_of_instance`.
+    `ingest_announce_with_foreign`, `known_after_response_of_instance` (for a response whose kept
+    records are the LIST `instRecords …`: each record once, in that order; the library's own
+    `announce(false)` repeats the address records in `additional` and sends in `HashMap` order:
+    `Props/C15Audit.lean`, section 4).
 11./12. several peers: `known_several_peers`, `several_peers_from_start`
     (`discoveryInit_ownerFree`, `known_of_ownOnly`).
 14. concrete values (`C15MultiEx`): every hypothesis is satisfiable; evaluation of the model on the
@@ -717,7 +727,10 @@ theorem contrib_twice {s0 : Store} {service full : Name} {ttl1 ttl2 : Nat} (rs1 
 instances). `s0` as in `known_one_reception`. After record set `rs1` has been cached at `t1` and
 record set `rs2` of the same owner at `t2` — in this order, whatever the two times —
 `get_known_services` at `now'` is that of `s0` plus `from_records` of the records alive at `now'`
-(`liveTwo`: the model, like the code, keeps every record until its own expiry), if there are any. -/
+(`liveTwo`: the model, like the code, keeps every record until its own expiry), if there are any.
+`liveTwo` lists them in the model's bucket order (insertion order); Rust's `HashMap` iterates them
+in some other order, which `from_records` shows only in the value of an attribute key that two
+live TXT records give differently (`Props/C15Audit.lean`: `bucketInstance_any_order`). -/
 theorem known_two_receptions {s0 : Store} (hI : Inv s0) {service : Name}
     (hnode : s0.nodeExists (getKey service) = true) {full : Name} {ttl1 ttl2 : Nat}
     {rs1 rs2 : List RR} (ho1 : OneOwner full ttl1 rs1) (ho2 : OneOwner full ttl2 rs2)
@@ -916,7 +929,9 @@ theorem OwnerFree.notAuth_inst {s : Store} {full : Name} (h : OwnerFree s full)
     NotAuth s (instRecords full ips ports ss ttl) :=
   fun r hr => h.2 r (mem_instRecords hr).1
 
-/-- the goodbye packet of an instance: its records with TTL 0 -/
+/-- the RFC 6762 goodbye packet of an instance: its records with TTL 0. (NOT what the library's
+`remove_service_from_discovery` sends: that is `announce(true)`, the records with the cache-flush
+bit and their TTL — `libraryGoodbye` in `Props/C15Audit.lean`.) -/
 def goodbye (full : Name) (ips : List (Bool × Nat)) (ports : List Nat) (ss : List Bytes) : Packet :=
   announce (instRecords full ips ports ss 0)
 
@@ -997,8 +1012,9 @@ theorem reannounce_extends {service own : Name} (inst : Label) (hown : own ≠ i
       hfree.1 (hfree.notAuth_inst _ _ _ _)
     simpa [aliveInst, show ¬ now' < t1 + 1000 * ttl by omega] using this
 
-/-- **Item 3, goodbye then announce**: the goodbye (the records with TTL 0) at `t1` followed by
-the announcement at `t2` gives the same `get_known_services` as the announcement alone. -/
+/-- **Item 3, goodbye then announce**: the RFC-style goodbye (the records with TTL 0; not the
+packet the library itself sends on removal) at `t1` followed by the announcement at `t2` gives the
+same `get_known_services` as the announcement alone. -/
 theorem goodbye_then_announce {service own : Name} (inst : Label) (hown : own ≠ inst :: service)
     {s0 : Store} (hI : Inv s0) (hfree : OwnerFree s0 (inst :: service))
     (ips : List (Bool × Nat)) (ports : List Nat) (ss : List Bytes) (ttl t1 t2 now' : Nat)
@@ -1024,9 +1040,13 @@ theorem known_after_goodbye_aux {service own : Name} (inst : Label) (hown : own 
   apply known_setBucket_of_nil hI hnode (contrib_of_keyFree hfree.1 service now')
   rw [contrib_once (instRecords_ne_nil _ _ _ _ _) (instKey_prefix inst service) hfree.1, if_neg (by omega)]
 
-/-- **Item 3, goodbye alone**: after the announcement at `t1` and the goodbye at `t2`, from `t2`
-on `get_known_services` is exactly (order included) what the store before the announcement gives:
-the instance is gone, at once and for good, however long its TTL was; nothing else changes. -/
+/-- **Item 3, RFC-style goodbye alone**: after the announcement at `t1` and the TTL-0 goodbye at
+`t2`, from `t2` on `get_known_services` of the model is exactly (order included) what the store
+before the announcement gives: the instance is gone, at once and for good, however long its TTL
+was; nothing else changes. This is about a peer that sends TTL 0. The library's own
+`remove_service_from_discovery` sends the records with the cache-flush bit and their TTL instead;
+then the instance stays known for one more second (`Props/C15Audit.lean`:
+`known_library_goodbye`, `library_goodbye_still_known`, `library_goodbye_gone`). -/
 theorem goodbye_removes {service own : Name} (inst : Label) (hown : own ≠ inst :: service)
     {s0 : Store} (hI : Inv s0) (hnode : s0.nodeExists (getKey service) = true)
     (hfree : OwnerFree s0 (inst :: service))
@@ -1233,8 +1253,11 @@ theorem keptOld_addedNew_nodup {α : Type} [BEq α] [LawfulBEq α] {xs ys : List
   have h2 := (List.mem_filter.mp hb).2
   simp [h1] at h2
 
-/-- the instance reported after two different descriptions of `inst.service` have been received:
-`a1` / `a2` say whether the first / second reception is still alive -/
+/-- the instance the MODEL reports after two different descriptions of `inst.service` have been
+received: `a1` / `a2` say whether the first / second reception is still alive. The order of the
+lists and "the second TXT record's values overwrite the first's" come from the model's
+insertion-ordered bucket; in Rust the sets are the same and a key with two different values has
+either value. -/
 def mergedInstance (inst : Label) (ips1 ips2 : List (Bool × Nat)) (ports1 ports2 : List Nat)
     (ss1 ss2 : List Bytes) (a1 a2 : Bool) : Instance :=
   { name := inst,
@@ -1247,7 +1270,11 @@ def mergedInstance (inst : Label) (ips1 ips2 : List (Bool × Nat)) (ports1 ports
 ports `ports1`, TXT strings `ss1`, TTL `ttl1`, and at `t2` with `ips2`, `ports2`, `ss2`, `ttl2`.
 The store keeps every record until its own expiry (a record announced both times: until the second
 reception's expiry), so `get_known_services` reports — besides what `s0` gives — ONE instance made
-of whatever is alive: `mergedInstance`; nothing if no record is alive. -/
+of whatever is alive; nothing if no record is alive. In the MODEL that instance is exactly
+`mergedInstance` (bucket = insertion order). Of the Rust code (bucket = `HashMap` order) this holds
+for the name, the address set, the port set and the attribute keys, and for the value of every key
+that the live TXT records do not give differently; the order-independent statement is
+`changed_data_union_audit` in `Props/C15Audit.lean`. -/
 theorem known_changed_data {service own : Name} (inst : Label) (hown : own ≠ inst :: service)
     {s0 : Store} (hI : Inv s0) (hnode : s0.nodeExists (getKey service) = true)
     (hfree : OwnerFree s0 (inst :: service))
@@ -1336,9 +1363,13 @@ theorem addedNew_single {α : Type} [BEq α] [LawfulBEq α] [DecidableEq α] (a 
   · have h' : ¬ b = a := fun e => h e.symm
     cases a2 <;> simp [h, h']
 
-/-- **Item 2, changed data, while both announcements are alive: the union.** Addresses and ports
-of the first description in their order, then the new ones of the second; the attributes of the
-first extended (`HashMap::extend`: new values overwrite) by those of the second. -/
+/-- **Item 2, changed data, while both announcements are alive: the union — in the model's bucket
+order.** Addresses and ports of the first description in their order, then the new ones of the
+second; the attributes of the first extended (`HashMap::extend`: later values overwrite) by those
+of the second. "Later" is the model's insertion order: Rust extends in `HashMap` iteration order,
+so for a key whose value CHANGED between the two announcements Rust reports the old or the new
+value (`C15AuditEx.changed_data_conflict_unspecified`); unions and unchanged keys are as stated
+(`changed_data_union_any_order`, `changed_data_union_audit` in `Props/C15Audit.lean`). -/
 theorem changed_data_union {service own : Name} (inst : Label) (hown : own ≠ inst :: service)
     {s0 : Store} (hI : Inv s0) (hnode : s0.nodeExists (getKey service) = true)
     (hfree : OwnerFree s0 (inst :: service))
@@ -1561,9 +1592,12 @@ theorem ingest_announce_with_foreign (service own : Name) (rs : List RR) (l : Li
   rw [this, List.append_nil]
 
 
-/-- **Items 1 + 4 together**: any response whose kept records are exactly the records of
-`inst.service` — whatever foreign records it carries besides, in whatever section and position —
-adds exactly the advertised instance to `get_known_services`. -/
+/-- **Items 1 + 4 together**: any response whose kept records are exactly the LIST of records of
+`inst.service` as `into_records` orders them, each once — whatever foreign records it carries
+besides, in whatever section and position — adds exactly the advertised instance to
+`get_known_services`. The library's own `announce(false)` is not of this shape (address records
+again in `additional`, everything in `HashMap` order); for it see `known_after_library_announce`
+and `known_after_library_announce_any_order` in `Props/C15Audit.lean`. -/
 theorem known_after_response_of_instance {service own : Name} (inst : Label) {s0 : Store}
     (hI : Inv s0) (hnode : s0.nodeExists (getKey service) = true)
     (ips : List (Bool × Nat)) (ports : List Nat) (ss : List Bytes) (ttl t now' : Nat)
@@ -1774,8 +1808,9 @@ theorem several_peers_from_start (service own : Name) (ownRecords : List RR)
 
 /-! ### 13. refinements: exact order for a new key; the union as sets; the trie-node hypothesis -/
 
-/-- **Item 1 with the order**: if the trie has no entry yet for the key of `inst.service` (the
-instance was never seen), the advertised instance is appended AFTER the instances known before. -/
+/-- **Item 1 with the order (of the model)**: if the trie has no entry yet for the key of
+`inst.service` (the instance was never seen), the model appends the advertised instance AFTER the
+instances known before. (Rust's `get_known_services` returns a `HashSet`: no order to speak of.) -/
 theorem known_after_announce_new_key {service own : Name} (inst : Label)
     (hown : own ≠ inst :: service) {s0 : Store} (hI : Inv s0)
     (hnode : s0.nodeExists (getKey service) = true)
@@ -1818,8 +1853,10 @@ theorem mem_union_list {α : Type} [BEq α] [LawfulBEq α] (xs ys : List α) (a 
 
 /-- **Item 2, changed data, as sets** (the Rust `HashSet`s / `HashMap`): while both announcements
 are alive some reported instance named `inst` has exactly the addresses of either announcement,
-exactly the ports of either, and for every attribute key of the second announcement the second's
-value. -/
+exactly the ports of either, and — IN THE MODEL, whose bucket keeps insertion order — for every
+attribute key of the second announcement the second's value. Of Rust the last clause holds only
+for keys the first announcement did not give a different value (its bucket is iterated in hasher
+order): see `changed_data_union_audit` in `Props/C15Audit.lean`. -/
 theorem changed_data_union_sets {service own : Name} (inst : Label) (hown : own ≠ inst :: service)
     {s0 : Store} (hI : Inv s0) (hnode : s0.nodeExists (getKey service) = true)
     (hfree : OwnerFree s0 (inst :: service))
